@@ -1999,6 +1999,7 @@ package goatlang
 //@   allocates elems(instruction) elems(Value) elems(string) elems(int) lookup token
 //@   ensures len(result) == 0 || isfresh(arr(result))
 //@   ensures wfC(c) && keepsC(c) && tokensKept()
+//@   assert#stamped @C20 @3 forall j int :: 0 <= j && j < len(res) ==> !res[j].Pos.IsZero()
 //@ func (*compiler).compileAll
 //@   property C06
 //@   trusted
@@ -2039,11 +2040,13 @@ package goatlang
 //@   allocates elems(Value) elems(string)
 //@   nopanic
 //@   ensures wfL(l) && len(l.data) >= old(len(l.data)) && l.keyToIndex == old(l.keyToIndex)
+//@   ensures#nonzero !result.IsZero()
 //@ func (pos).IsZero
 //@   inline
 //@ func (*compiler).compile loop 9999
 //@   property C20
 //@   invariant wfC(c) && keepsC(c)
+//@   invariant#stamped forall j int :: 0 <= j && j < rangeidx ==> !res[j].Pos.IsZero()
 
 //@ func (*compiler).compile case "&&"
 //@   property C06 C02 C05
